@@ -17,4 +17,10 @@ CHECKS = {
         "level_note": "Trusts hook H4 to copy lattice state faithfully (observation only) and the harness DP; texts <=200 chars so i32 sums cannot overflow (that is C03's D10).",
         "technique": "lattice hook + independent shortest-path recomputation (reference-model monitor)",
     },
+    "C17": {
+        "level_text": "Exploration over definition files, exhaustive over code points: every generated char.def that loads is queried for all 1,112,064 scalar values and compared with the union-of-covering-lines model; line order is permuted. Held for the counted definitions.",
+        "design_ref": "DESIGN.md 6/C17",
+        "level_note": "The outer quantifier (definition files) is sampled; the inner one (code points) is complete per definition. Trusts the 10-line reference model.",
+        "technique": "reference-model monitor, exhaustive code-point sweep per generated definition",
+    },
 }
